@@ -291,7 +291,7 @@ def run(ctx):
              "1-2 reorderings for the representative configurations); oracle at quiescence: disconnect hook count per handshaken connection = 1, every tracked resource closed "
              "exactly once and untracked ones never, session instances dead, server-side sockets closed, worker / selector slots released, B undisturbed and its resource "
              "still open while it is connected; distinct = observation vectors" % len(endings(ctx.quick)),
-        extra={"configs": len(cfgs)})
+        extra={"configs": len(cfgs), "budgets_p_r": sorted({(c["p"], c["r"]) for c in cfgs}), "bound_completed": "every execution within each configuration's (preemption, reordering) budget was run to completion"})
     return {"violations": stats.violations, "coverage": cov,
             "assumptions": ["quick tier: byte offsets at field boundaries; thorough tier: every byte offset of the request under the default schedule",
                             "an idle peer on a multiplex server is not timed out by design (nothing is read)"]}
